@@ -13,7 +13,7 @@ TRUSTED = [
     "declarative specifications in coq/Spec are transcriptions of the published algorithms",
 ]
 ASSUMPTIONS = ["hand-written model validated by execution on every run"]
-MANIFEST = dict(category="proof", text="Declarative specifications (coq/Spec) written independently of the model — SemVer 2.0.0 precedence for npm/Cargo/Go; the per-ecosystem specs in the part modules — with theorems that the model's comparison equals the specification on the stated domain (Properties/C02*.v: full where provable, _partial with the domain predicate, _refuted with witnesses for the recorded findings). The implementation is compared with the extracted specification on generated pairs of strict strings, and every normal-form string must be accepted.", note='Specifications are transcriptions of the published algorithms, validated against the real tools only where those happen to be installed. The tie from strings to structures is the model parser (validated by correspondence) and hook H4.', technique='Rocq proof model = declarative spec on a domain + differential test implementation vs extracted spec', design='8 C02')
+MANIFEST = dict(category="proof", text="Declarative specifications (coq/Spec) written independently of the model — SemVer 2.0.0 precedence for npm/Cargo/Go; NuGet's comparer (four Int32 components, case-insensitive labels, numeric iff int.TryParse accepts) with the theorem C02_nuget that needs no range hypothesis; the per-ecosystem specs in the part modules — with theorems that the model's comparison equals the specification on the stated domain (Properties/C02*.v: full where provable, _partial with the domain predicate, _refuted with witnesses for the recorded findings). The implementation is compared with the extracted specification on generated pairs of strict strings, and every normal-form string must be accepted.", note='Specifications are transcriptions of the published algorithms, validated against the real tools only where those happen to be installed. The tie from strings to structures is the model parser (validated by correspondence) and hook H4.', technique='Rocq proof model = declarative spec on a domain + differential test implementation vs extracted spec', design='8 C02')
 
 
 def run(ctx):
